@@ -79,6 +79,7 @@ impl Case {
                 Some("reset") => "reset",
                 Some("fail-writes") => "fail-writes",
                 Some("early-eof") => "early-eof",
+                Some("eof-abort") => "eof-abort",
                 _ => "none",
             },
         }
@@ -154,6 +155,11 @@ fn judge(case: &Case, oc: &Outcome, reference: Option<&Outcome>) -> Vec<Verdict>
         });
         return v;
     }
+    if oc.stalled && case.fault == "eof-abort" && !oc.eof_delivered {
+        // one handler never answers by construction; the connection can only end on the peer's FIN,
+        // and a server that has stopped reading (back-pressure, full buffer) has not seen it yet
+        return v;
+    }
     if oc.stalled {
         v.push(Verdict {
             class: "stall-no-wakeup",
@@ -168,6 +174,9 @@ fn judge(case: &Case, oc: &Outcome, reference: Option<&Outcome>) -> Vec<Verdict>
                 oc.wakes
             ),
         });
+        return v;
+    }
+    if !oc.done && case.fault == "eof-abort" && !oc.eof_delivered {
         return v;
     }
     if !oc.done {
@@ -185,7 +194,7 @@ fn judge(case: &Case, oc: &Outcome, reference: Option<&Outcome>) -> Vec<Verdict>
         v.push(Verdict { class: "poll-amplification", sig: stuck_where(case, oc), detail: format!("{} polls for {} events and {} bytes moved (bound {})", oc.polls, events, moved, bound * 4) });
     }
     // output integrity
-    if case.fault == "none" || case.fault == "early-eof" {
+    if case.fault == "none" || case.fault == "early-eof" || case.fault == "eof-abort" {
         let methods: Vec<String> = case.reqs.iter().map(|r| r.method.to_string()).collect();
         let rp = h1_resp::parse_responses(&oc.out, &|i| methods.get(i).cloned(), true);
         if let Some((at, why)) = rp.malformed_at {
@@ -284,6 +293,9 @@ fn eval_case(case: &Case, rep: &mut Reporter) {
     rep.count("flush_pendings", oc.flush_pendings);
     rep.count("handler_invocations", oc.reqs.len() as u64);
     rep.count(&format!("fault:{}", case.fault), 1);
+    if case.fault == "eof-abort" {
+        rep.count(if oc.eof_delivered { "eof-abort:fin_observed_by_server" } else { "eof-abort:fin_not_observed(server not reading)" }, 1);
+    }
     rep.count(if oc.done { "terminated" } else { "not_terminated" }, 1);
     match &oc.result {
         Some(Ok(())) => rep.count("result:ok", 1),
@@ -499,6 +511,15 @@ pub fn gen_case(rng: &mut Rng) -> Case {
         if cursors[it] == items[it].len() {
             live.remove(pick);
         }
+    }
+    // With half-close disallowed the server aborts as soon as it sees the peer's FIN, whatever is
+    // in flight: leave one handler pending for ever and demand that the connection still ends.
+    let gated: Vec<usize> = (0..n).filter(|&i| progs[i].post_gate.is_some()).collect();
+    if !cfg.half_closed && fault == "none" && !gated.is_empty() && rng.chance(1, 3) {
+        fault = "eof-abort";
+        let g = 3 * *rng.pick(&gated) + 1;
+        acts.retain(|a| !matches!(a, Act::Gate(x, _) if *x == g));
+        settle.retain(|a| !matches!(a, Act::Gate(x, _) if *x == g));
     }
     let deterministic_output = all_read_all && fault == "none";
     if deterministic_output {
